@@ -144,10 +144,24 @@ def parse(pytrs, text, cfg):
             t.parse(commit=False, qq_depth=1,
                     **{b: not kw[b] for b in _BOOLS})
         t.parse(**kw)
+        if len(text) % 3 == 1:
+            # what a what-if parse RETURNS is the result under the settings
+            # it was given, not what the tract holds
+            other = dict(kw)
+            other['suppress_lot_divs'] = not kw.get('suppress_lot_divs', False)
+            u = pytrs.Tract(text, config=own)
+            u.parse(**other)
+            ret = t.parse(commit=False, **other)
+            if list(ret) != list(u.lots) + list(u.qqs):
+                _WHATIF.append((text, other, list(ret),
+                                list(u.lots) + list(u.qqs)))
     return {'lots': list(t.lots), 'qqs': list(t.qqs),
             'lots_qqs': list(t.lots_qqs), 'ilots': list(t.ilots),
             'acres': dict(t.lot_acres), 'w_flags': list(t.w_flags),
             'pp': t.pp_desc}
+
+
+_WHATIF = []
 
 
 def compose_problem(pytrs, elements, sep, cfg, ctx=None):
@@ -231,7 +245,16 @@ def check_case(case, ctx, pytrs):
                               f"{txt!r} alone gives acreages {got['acres']}, "
                               f"model {model['acres']}", dedup=kind)
                 return
+        del _WHATIF[:]
         prob = compose_problem(pytrs, elements, sep, cfg, ctx)
+        if _WHATIF:
+            ctx.hit('what-if-return-value')
+            txt_, other, ret, want = _WHATIF[0]
+            ctx.violation('what-if-return-value', case,
+                          f"Tract({txt_!r}).parse(commit=False, {other}) "
+                          f"returned {ret}; a tract parsed with those "
+                          f"settings holds {want}", dedup='whatif')
+            return
         if prob is None:
             return
         # Counterfactual diagnosis for the two recorded mechanisms: which
